@@ -458,13 +458,14 @@ def h_for_cu(ctx):
     """the program attached to a unit is the one DW_AT_stmt_list designates (two programs in the section)"""
     cfg = ctx.cfg
     little, addr, ver = cfg['little'], cfg['addr'], cfg['ver']
-    shape = dict(opcode_base=13, dirs=[], files=[1]) if ver < 5 else dict(opcode_base=13)
+    lver = cfg.get('lver', ver)     # the version of a line table is independent of the version of the unit that refers to it (DWARF 5, 6.2.4)
+    shape = dict(opcode_base=13, dirs=[], files=[1]) if lver < 5 else dict(opcode_base=13)
     secs = []
     offs = []
     wants = []
     for u in range(2):
         # the line programs of a unit use the unit's DWARF format
-        hb, want = gen_header(ctx, ver, cfg.get('cu_fmt64', False), little, addr, shape, nm='h%d' % u, strtabs={'line_strp': STRTAB, 'strp': STRTAB})
+        hb, want = gen_header(ctx, lver, cfg.get('cu_fmt64', False), little, addr, shape, nm='h%d' % u, strtabs={'line_strp': STRTAB, 'strp': STRTAB})
         unit = wrap_unit(hb + [0x01] * (u + 1), cfg.get('cu_fmt64', False), little)
         offs.append(len(secs))
         wants.append(want)
@@ -600,6 +601,7 @@ HARNESSES = [
     H('h5_3_seq', h_seq, _seq_instances, expect=('ok',),
       desc='whole programs (0-5 instructions, symbolic operands, symbolic header scalars) through the real header parser: rows equal the fold of the '
            'reference step; end_sequence resets; define_file extends the file table; unknown extended opcodes skipped by length; two programs per section'),
-    H('h5_4_for_cu', h_for_cu, lambda tier: [dict(little=l, addr=a, ver=v, cu_fmt64=f) for (l, a) in ((True, 8), (False, 4)) for v in (2, 3, 4, 5) for f in (False, True)], expect=('ok',),
+    H('h5_4_for_cu', h_for_cu, lambda tier: [dict(little=l, addr=a, ver=v, cu_fmt64=f) for (l, a) in ((True, 8), (False, 4)) for v in (2, 3, 4, 5) for f in (False, True)] +
+                                              [dict(little=l, addr=a, ver=v, lver=lv, cu_fmt64=f) for (l, a, f) in ((True, 8, False), (False, 4, True)) for v, lv in ((4, 5), (5, 4), (5, 2), (5, 3), (3, 5), (2, 4))], expect=('ok',),
       desc='line_program_for_CU returns the program at the (symbolic) DW_AT_stmt_list offset; second request returns the same object'),
 ]
